@@ -1432,6 +1432,8 @@ class CallMixin(object):
         raise Unsupported('builtin %s' % name)
 
     def sort_network(self, items, st):
+        ds = [self.deref(i, st) for i in items]
+        if all(isinstance(i, PyStr) for i in ds): return sorted(ds, key=lambda x: x.s)
         zs = [unwrap(self.deref(i, st)) for i in items]
         if len(zs) == 1: return list(items)
         if len(zs) == 2:
